@@ -205,6 +205,8 @@ func checkC20(p *core.Program, r *core.Report) {
 	importObligations(p, r, "C01", map[string]bool{"R10": true}, "R9", "a wait can be left by an exit that inspection does not list")
 	r.Rule("R12", "every way a template can read a contact field is a way inspection knows: the paths through the run context that end at the contact's field values — computed from the map literals of the Context methods, starting at run.RootContext and following flows.Context(env, x) to the Context method of x's type and flows.ContextFunc to the method it is given — are all rows of inspect.fieldRefPaths (a path missing there reads a field at run time that the flow's dependencies do not list)")
 	c20R12(p, r)
+	r.Rule("R13", "a fixed reference is resolved by what inspection lists: in flows/actions a by-name lookup of an asset (FindByName on the group, label, topic … assets) is given a constant or text that derives from an evaluated template (a name_match reference, a legacy variable) — never the saved Name of a reference whose UUID did not resolve: inspection lists that reference by its UUID (as missing), so a run that falls back to the name touches an asset the inspection does not show")
+	c20R13(p, r)
 	r.Rule("R11", "a session is only resumed at a node that waits: tryToResume ends the session as failed when the node has no router or the router no wait (imported from C10/R3) — otherwise the resumed run leaves by the exits of a node whose exits inspection does not list as waiting exits")
 	importObligations(p, r, "C10", map[string]bool{"R3": true}, "R11", "a session can be resumed at a node without a wait")
 	r.Rule("R10", "what validation admits, inspection recognises: the spelling of a case's test type that SwitchRouter.Validate accepts is not laxer than the one Case.Dependencies / inspection compares — if any consumer of Case.Type compares it exactly, Validate looks it up exactly too (a type admitted only after lower-casing runs as has_group but its group is not listed as a dependency)")
@@ -1250,6 +1252,51 @@ func fieldOwner(addr ssa.Value) string {
 		return n.Obj().Name()
 	}
 	return ""
+}
+
+// c20R13: by-name asset lookups in the actions take evaluated (or constant) names only.
+func c20R13(p *core.Program, r *core.Report) {
+	n := 0
+	per := map[string]int{}
+	for _, fn := range p.ModuleFunctions() {
+		if core.RelPkg(core.FuncPkgPath(fn)) != "flows/actions" || p.IsTestFile(fn.Pos()) || fn.Synthetic != "" {
+			continue
+		}
+		for _, cs := range core.Calls(fn, false) {
+			o := core.CalleeObj(cs.Common())
+			if o == nil || o.Name() != "FindByName" || len(cs.Common().Args) == 0 {
+				continue
+			}
+			arg := cs.Common().Args[len(cs.Common().Args)-1]
+			n++
+			k := core.FuncName(fn) + "->" + core.ObjName(o)
+			per[k]++
+			key := k
+			if per[k] > 1 {
+				key = fmt.Sprintf("%s#%d", k, per[k])
+			}
+			evaluated, fromRef := false, ""
+			if _, isC := core.StripConv(arg).(*ssa.Const); isC {
+				evaluated = true
+			}
+			for v := range core.BackSlice(arg, func(*ssa.Call) bool { return true }) {
+				switch x := v.(type) {
+				case *ssa.Call:
+					if co := core.CalleeObj(&x.Call); co != nil && strings.HasPrefix(core.ObjName(co), "flows.Run.EvaluateTemplate") {
+						evaluated = true
+					}
+				case *ssa.FieldAddr:
+					if fv := core.FieldAddrVar(x); fv != nil && fv.Name() == "Name" {
+						fromRef = fieldOwner(x) + ".Name"
+					}
+				}
+			}
+			r.Check(evaluated && fromRef == "", "R13", key+"/evaluated-name-only", p.Pos(cs.Pos()), "the name is a constant or an evaluated template",
+				"the asset is looked up by "+fromRef+" (a saved name, not an evaluated one): a reference whose UUID is not in the assets is resolved to another asset of the same name, which inspection — listing the reference by UUID — does not show")
+		}
+	}
+	r.Count("by_name_lookups_in_actions", n)
+	r.Require("by_name_lookups_in_actions", n, 2)
 }
 
 func c20R8(p *core.Program, r *core.Report) {
